@@ -186,8 +186,6 @@ func c14provRun(r *vfRand, c *c14provCase, tr *zzc14.Trace) (*zzc14.Plan, string
 		return i
 	}
 	if err != nil {
-		plan.Close = func() error { return nil }
-		plan.CloseAt = 0
 		plan.Run(tr)
 		return plan, "ctor error: " + err.Error()
 	}
